@@ -1,11 +1,16 @@
 import XjsModel.Proofs.PrinterErase
+import XjsModel.Proofs.PrinterComments
 /-
   C15 — The pretty printer keeps statement-level comments; compact output has none.
 
   Proved here for ALL trees: compact output is a function of the comment-free tree (so it contains no comment
   text and no comment can alter the code around it), also with a source map requested.
-  The pretty-printing clauses (every comment once, in order, before the same anchor) are decided by the
-  correspondence run plus the comment-inventory oracle; see DESIGN.md §C15 for the event-level statement.
+  Proved here for ALL complete trees in pretty mode: the printer hands the trivia entries of every stored token to
+  `WriteLeadingComments` exactly once each, in the order of `Spec/Comments` (source order of the tokens), and each
+  such call writes its entries verbatim (`//` in front of a non-empty one) and leaves the code that follows on a fresh
+  indented line; in compact mode no entry is ever written. `comments` is a ghost field of the model (the log of
+  entries written); the correspondence run ties the bytes the model writes to the Go printer's, and the
+  comment-inventory oracle checks the same statement on the Go side from the parsed source.
 -/
 namespace Xjs.C15
 open Xjs
@@ -28,6 +33,36 @@ theorem debug_ignores_comments (prog : StmtList) : debugProgramToString prog.era
 theorem mode_is_stable (prog : StmtList) (cw : CW) : (writeProgramStmts prog true cw).pretty = cw.pretty :=
   pretty_writeProgramStmts prog true cw
 
+/-- pretty mode: every trivia entry of the tree is replayed exactly once, in order -/
+theorem pretty_replays_every_comment_once_in_order (cfg : CompCfg) (prog : StmtList) (hp : cfg.pretty = true)
+    (hc : prog.complete = true) : (compile cfg prog).comments = prog.cmts := by
+  unfold compile
+  exact (clog_writeProgramStmts prog true _ hp hc).trans (by simp)
+
+/-- compact mode: no trivia entry is written, whatever the tree -/
+theorem compact_writes_no_comment (cfg : CompCfg) (prog : StmtList) (hp : cfg.pretty = false) :
+    (compile cfg prog).comments = [] := by
+  unfold compile
+  exact clog_c_writeProgramStmts prog true _ hp
+
+/-- what one replay writes: the entries verbatim, then a pending line break and indentation for the code that follows -/
+theorem replay_is_verbatim (cw : CW) (cs : List Bytes) (hp : cw.pretty = true) (hne : cs ≠ []) :
+    (cw.leadingComments cs).out = cw.out ++ commentText (List.replicate cw.indentLevel cw.indentUnit).flatten cs true ∧
+    (cw.leadingComments cs).pendings = [10, 9] ∧ (cw.leadingComments cs).clog = cw.clog ++ cs :=
+  leadingComments_pretty cw cs hp hne
+
+/-- the entries of a statement list are those of its statements in order; those of a block end with the closing brace's -/
+theorem comments_follow_statement_order (s : Stmt) (rest : StmtList) (tok rb : Token) :
+    (StmtList.cons s rest).cmts = s.cmts ++ rest.cmts ∧
+    (Stmt.block tok (.cons s rest) rb).cmts = tok.comments ++ (s.cmts ++ rest.cmts) ++ rb.comments := by
+  simp [StmtList.cmts, Stmt.cmts]
+
+/-! Non-vacuity: the comment on a statement's first token is written in pretty mode and logged -/
+example :
+    let t : Token := { type := .ident, lit := [97], sl := 1, sc := 0, el := 1, ec := 1, nl := true, comments := [[32, 104, 105]] }
+    let r := compile { pretty := true } (.cons (.exprS (.ident { tok := t, value := [97] })) .nil)
+    r.comments = [[32, 104, 105]] ∧ r.code = [47, 47, 32, 104, 105, 10, 97] := by decide
+
 /-! Non-vacuity: a statement whose token carries a comment -/
 example :
     let t : Token := { type := .ident, lit := [97], sl := 1, sc := 0, el := 1, ec := 1, nl := true, comments := [[32, 104, 105]] }
@@ -38,3 +73,6 @@ end Xjs.C15
 #print axioms Xjs.C15.compact_ignores_comments
 #print axioms Xjs.C15.debug_ignores_comments
 #print axioms Xjs.C15.mode_is_stable
+#print axioms Xjs.C15.pretty_replays_every_comment_once_in_order
+#print axioms Xjs.C15.compact_writes_no_comment
+#print axioms Xjs.C15.replay_is_verbatim
